@@ -31,6 +31,9 @@ def obligations(tier):
                      bounds="one concurrent set, placed at any atomic instruction of the focus at which the table lock is free", symbolic="placement of the concurrent set, key ids, values, destructors"))
     o.append(Obl("key_ids", "C16/keyid.c", "4 solver-chosen ABT_key_create / ABT_key_free operations on 3 handles from an arbitrary id counter: an id is never handed out twice, not even after the key was freed (its entries may still live in work units), and never collides with the runtime's reserved keys",
                  unwind=5, object_bits=10, backend="cadical", encodes=["ABT_key_create", "ABT_key_free"], bounds="4 operations, 3 handles, counter below 2^32-16", symbolic="operation sequence, counter start, destructor presence"))
+    import importlib as _il
+    C18 = _il.import_module("props.C18")
+    o += [x for x in C18.own_obligations(tier) if x.name == "ktable_lazy_create"]
     return o
 
 MANIFEST_ENTRY = {
